@@ -1359,23 +1359,37 @@ def add_invariant_checks(cls: ClassT) -> None:
             setattr(cls, "__new__", _decorate_new_with_invariants(new_func))
         else:
             wrapper = _decorate_with_invariants(func=init_func, is_init=True)
-            setattr(cls, init_func.__name__, wrapper)
+            if wrapper is not init_func:
+                setattr(cls, init_func.__name__, wrapper)
+
+    # NOTE: A member which is inherited from a base and already checks the invariants (of the class of the instance)
+    # must not be copied into this class. Otherwise, the copy would hide the overrides of that member in the sibling
+    # classes which come later in the method resolution order of a common sub-class.
 
     for name, func in names_funcs:
         wrapper = _decorate_with_invariants(func=func, is_init=False)
-        setattr(cls, name, wrapper)
+        if wrapper is not func:
+            setattr(cls, name, wrapper)
 
     for name, prop in names_properties:
-        new_prop = property(
-            fget=_decorate_with_invariants(func=prop.fget, is_init=False)
+        fget = (
+            _decorate_with_invariants(func=prop.fget, is_init=False)
             if prop.fget
-            else None,
-            fset=_decorate_with_invariants(func=prop.fset, is_init=False)
-            if prop.fset
-            else None,
-            fdel=_decorate_with_invariants(func=prop.fdel, is_init=False)
-            if prop.fdel
-            else None,
-            doc=prop.__doc__,
+            else None
         )
+        fset = (
+            _decorate_with_invariants(func=prop.fset, is_init=False)
+            if prop.fset
+            else None
+        )
+        fdel = (
+            _decorate_with_invariants(func=prop.fdel, is_init=False)
+            if prop.fdel
+            else None
+        )
+
+        if fget is prop.fget and fset is prop.fset and fdel is prop.fdel:
+            continue
+
+        new_prop = property(fget=fget, fset=fset, fdel=fdel, doc=prop.__doc__)
         setattr(cls, name, new_prop)
